@@ -10,7 +10,7 @@ RULE = ('table of (operation, state in which it can complete without waiting) x 
         'before: await of true conditions / done task / ended scope / instant, sleep 0, flag and tracked sets (changing or not), '
         'queue and channel put/get(buffered)/close (open or closed)/iteration, borrow/claim/give back, '
         'increase/decrease/set, pipe transfers (zero volume, unbounded, finite), interval/delay steps incl. period 0, collect '
-        '(empty and non-empty), leaving an (empty) scope block, giving borrowed / claimed resources back when the block is left normally, by an exception, by the interrupt of an until-scope or by a cancellation of the task of the holder (next to activities that stay runnable), tickers whose steps pass no time (body takes exactly the period, period 0) next to activities that stay runnable; each spinner must log a turn between the start marker 100 and the '
+        '(empty and non-empty), leaving an (empty) scope block, leaving a scope block in the turn after a child failed (cancellation still queued), giving borrowed / claimed resources back when the block is left normally, by an exception, by the interrupt of an until-scope or by a cancellation of the task of the holder (next to activities that stay runnable), tickers whose steps pass no time (body takes exactly the period, period 0) next to activities that stay runnable; each spinner must log a turn between the start marker 100 and the '
         'completion marker 101 of the operation; the table is enumerated completely in every run (exhaustive over the table); '
         'thorough adds random prefixes; non-trivial = every case')
 
@@ -117,6 +117,21 @@ def give_back_case(how, k, claim=False, res=0):
     return ['scenario', ['debug', 1], ['start', 0], ['flags', 2], ['locks', 0], ['resources', ['res', 0, 5, 5], ['res', 1, 4]], ['roots'] + roots]
 
 
+def failed_child_exit_case(k):
+    """the body of a scope ends normally in the very turn after a child failed: the scope's cancellation is still queued
+    behind the body's own wake-up.  Leaving the block (marker 100 at the end of the body, 101 after the block) still has
+    to let the k activities that stay runnable have a turn"""
+    child = ['prog', ['sleep', 1], ['raise', 0]]
+    # (the child's wake-up for t=1 is queued before the body's: the child fails first, the body resumes right after it)
+    block = ['scope', 8, ['none'], ['spawn', 8, 40, None, None, False, child], ['sleep', 0], ['sleep', 0], ['sleep', 1], ['log', 100]]
+    holder = [['try', ['body', block], ['handler', ['pats', 'concurrent', 'anyException'], ['body', ['log', 7]]]], ['log', 101]]
+    roots = [['prog'] + holder]
+    spin = ([None, ['sleep', 0]] * 8 + [['sleep', 1]]) * 3
+    for i in range(k):
+        roots.append(['prog'] + [['log', 200 + i] if x is None else x for x in spin])
+    return ['scenario', ['debug', 1], ['start', 0], ['flags', 1], ['locks', 0], ['roots'] + roots]
+
+
 def run(tier, seed, drv):
     st = msuite.Suite(PID, drv, 'C20', TAGS + ['tick', 'tbodyend', 'tbegin', 'bbody', 'bexit'])
     st.res.rule = RULE
@@ -126,6 +141,10 @@ def run(tier, seed, drv):
                 st.judge_params = str(k)
                 st.check(ticker_case(stmt, period, k, offset), meta={'operation': name, 'spinners': k}, nontrivial=lambda impl: True)
                 st.res.count('op:' + name)
+    for k in (1, 2, 3):
+        st.judge_params = str(k)
+        st.check(failed_child_exit_case(k), meta={'operation': 'scope-exit-after-child-failure', 'spinners': k}, nontrivial=lambda impl: True)
+        st.res.count('op:scope-exit-after-child-failure')
     for how in GIVE_BACK:
         for k in (1, 2, 3):
             for claim in (False, True):
